@@ -176,19 +176,24 @@ pub fn run(prop: &str, outdir: &str, seed: u64, thorough: bool) -> serde_json::V
             "WITH w AS (SELECT t.id AS i, t.age AS a FROM users AS t WHERE t.age > 30) SELECT x.a AS a1, y.a AS a2 FROM w AS x JOIN w AS y ON x.i = y.i",
             "WITH w AS (SELECT t.city AS c, COUNT(*) AS n FROM users AS t GROUP BY t.city) SELECT x.c AS c, x.n + y.n AS n FROM w AS x JOIN w AS y ON x.c = y.c",
             "WITH w AS (SELECT t.age AS a FROM users AS t) SELECT x.a AS a FROM w AS x UNION SELECT y.a AS a FROM w AS y"];
-        let (sql, _) = if r.chance(1, 8) { st.bump("shared_subrelation_queries"); (r.pick(&shared).to_string(), vec![]) } else { let mut g = QGen::new(&mut r, &w.specs); g.query(depth) };
+        // the first query of every run: a left-deep chain of six aggregated sub-queries and one that has no DP rule; its top join has
+        // more than sixty consistent derivations and the all-synthetic one comes last
+        let long_chain = attempts == 1;
+        let chain_sql = { let subs: Vec<String> = (1..=6).map(|k| format!("s{} AS (SELECT t.user_id AS k, COUNT(*) AS n FROM orders AS t WHERE t.amount > {} GROUP BY t.user_id)", k, k)).collect();
+            format!("WITH {}, mx AS (SELECT t.user_id AS k, MAX(t.amount) AS m FROM orders AS t GROUP BY t.user_id) SELECT s1.n AS n1, s6.n AS n6, mx.m AS m FROM s1 JOIN s2 ON s1.k = s2.k JOIN s3 ON s1.k = s3.k JOIN s4 ON s1.k = s4.k JOIN s5 ON s1.k = s5.k JOIN s6 ON s1.k = s6.k JOIN mx ON s1.k = mx.k", subs.join(", ")) };
+        let (sql, _) = if long_chain { st.bump("long_join_chain_queries"); (chain_sql, vec![]) } else if r.chance(1, 8) { st.bump("shared_subrelation_queries"); (r.pick(&shared).to_string(), vec![]) } else { let mut g = QGen::new(&mut r, &w.specs); g.query(depth) };
         let rel = match catch_unwind(AssertUnwindSafe(|| to_relation(&w, &sql))) { Ok(Ok(rel)) => rel, Ok(Err(_)) => { st.bump("query_rejected"); continue; } Err(_) => { st.bump("query_panicked"); continue; } };
-        let syn = r.chance(1, 2);
-        let dp_entry = r.chance(2, 3);
+        let syn = long_chain || r.chance(1, 2);
+        let dp_entry = long_chain || r.chance(2, 3);
         // rewrite_with_differential_privacy always sets its rules with Strategy::Hard
         let hard = if dp_entry { true } else { r.chance(1, 2) };
         let hard_eff = hard;
         let nodes = count_nodes(&rel.set_rewriting_rules(setter(&w, syn, hard)));
-        if nodes > 14 { st.bump("tree_too_large_skipped"); continue; }
+        if nodes > 14 && !long_chain { st.bump("tree_too_large_skipped"); continue; }
         {
             let rr_set = rel.set_rewriting_rules(setter(&w, syn, hard));
             let rr_elim = rr_set.map_rewriting_rules(RewritingRulesEliminator);
-            if rr_elim.select_rewriting_rules(RewritingRulesSelector).len() > 400 { st.bump("too_many_derivations_skipped"); continue; }
+            if !long_chain && rr_elim.select_rewriting_rules(RewritingRulesSelector).len() > 400 { st.bump("too_many_derivations_skipped"); continue; }
         }
         let (rr_set, rr_elim, selected, scores, sigs) = analyse(&w, &rel, syn, hard, dp_entry, prop, &sql, &mut st);
         // the real entry point
